@@ -14,6 +14,8 @@ CONSTANTS
   Fall = 1
   MaxRounds = 2
   MaxConns = 2
+  MaxHalf = 1
+  WatcherLeaves = {}
   MaxToggles = 1
 INVARIANTS TypeOK ConnToUsable EstablishedClosed EView
 CHECK_DEADLOCK FALSE
